@@ -12,6 +12,7 @@
   * `*_not_raw`         : a separator character never occurs raw inside a component.
 -/
 import PurlModel.Lemmas.Format
+import PurlModel.Lemmas.EncodeSpells
 namespace Purl.C03
 open Purl Purl.Generated
 
@@ -188,5 +189,18 @@ theorem separators_not_raw (s : Str) :
 
 example : specFormat id (⟨['t'], { name := ['a', '&', ' ', 'é'], quals := [(['k'], ['x', '&', '=', '+'])], subpath := ['s', '`'] }⟩ : GPurl Str)
     = "pkg:t/a&%20%C3%A9?k=x%26=%2B#s%60".toList := by decide
+
+/-- THE CANONICAL FORM IS ONE OF THE SPELLINGS: what `Display` writes for a component — in any of the five
+positions — is a percent-spelling (`PctSp`, C02) of that component: every char raw or all of its bytes escaped
+(upper-case hex).  So the canonical string lies inside the family of strings that C02 says parse to the same
+components, which is why parsing it gives the value back (C01). -/
+theorem written_component_spells (s : Str) :
+    PctSp s (pctEncode namespaceEsc s) ∧ PctSp s (pctEncode nameEsc s) ∧ PctSp s (pctEncode versionEsc s) ∧
+    PctSp s (pctEncode qvalueEsc s) ∧ PctSp s (pctEncode subpathEsc s) ∧ PctSp s (pctEncode qkeyEsc s) :=
+  ⟨pctEncode_spells _ (by decide) s, pctEncode_spells _ (by decide) s, pctEncode_spells _ (by decide) s,
+   pctEncode_spells _ (by decide) s, pctEncode_spells _ (by decide) s, pctEncode_spells _ (by decide) s⟩
+
+/-- non-vacuity: `a/é%` in the name position is written `a%2F%C3%A9%25` -/
+example : pctEncode nameEsc ['a', '/', 'é', '%'] = "a%2F%C3%A9%25".toList := by decide
 
 end Purl.C03
